@@ -5,6 +5,7 @@ import (
 	"fmt"
 	"golang.org/x/net/bpf"
 	"os"
+	"reflect"
 	"strings"
 
 	seccomp "github.com/elastic/go-seccomp-bpf"
@@ -72,31 +73,45 @@ func shareBackingArrays(p *seccomp.Policy, mode int) {
 	var names []string
 	var nwcs []seccomp.NameWithConditions
 	var conds []seccomp.Condition
+	type span struct{ gi, wi, start, n int }
+	var spans []span
+	lastLen := 0
 	for gi, g := range p.Syscalls {
 		if !shared(gi) {
 			continue
 		}
 		names = append(names, g.Names...)
-		for _, w := range g.NamesWithCondtions {
-			conds = append(conds, w.Conditions...)
+		for wi, w := range g.NamesWithCondtions {
+			n := len(w.Conditions)
+			if n == 0 {
+				continue
+			}
+			// a list that begins with the tail of the list laid out just before it - or with that whole list - OVERLAPS it (two
+			// windows of one array)
+			k := 0
+			for kk := n - 1; kk >= 1; kk-- {
+				if kk <= lastLen && reflect.DeepEqual(conds[len(conds)-kk:], w.Conditions[:kk]) {
+					k = kk
+					break
+				}
+			}
+			spans = append(spans, span{gi, wi, len(conds) - k, n})
+			conds = append(conds, w.Conditions[k:]...)
+			lastLen = n
 		}
 	}
 	// spare room behind the last list too
 	names = append(names, "spare-1", "spare-2")[:len(names)]
-	no, co := 0, 0
+	conds = append(conds, seccomp.Condition{}, seccomp.Condition{})[:len(conds)]
+	for _, sp := range spans {
+		p.Syscalls[sp.gi].NamesWithCondtions[sp.wi].Conditions = conds[sp.start : sp.start+sp.n]
+	}
+	no := 0
 	for gi := range p.Syscalls {
 		if !shared(gi) {
 			continue
 		}
-		g := &p.Syscalls[gi]
-		for wi := range g.NamesWithCondtions {
-			w := &g.NamesWithCondtions[wi]
-			if n := len(w.Conditions); n > 0 {
-				w.Conditions = conds[co : co+n]
-				co += n
-			}
-		}
-		nwcs = append(nwcs, g.NamesWithCondtions...)
+		nwcs = append(nwcs, p.Syscalls[gi].NamesWithCondtions...)
 	}
 	wo := 0
 	for gi := range p.Syscalls {
